@@ -218,7 +218,16 @@ fn realise(w: &mut World, n: &Node, a: &ABlock) -> Result<BlockView, String> {
     let since = if a.cb == "since" { pos + 1 } else { pos };
     let build_cellbase = |pad: usize| -> TransactionView {
         let mut cb = TransactionBuilder::default().input(CellInput::new_cellbase_input(since));
-        cb = if a.cb == "badwitness" { cb.witness(Bytes::from(vec![1u8, 2, 3]).pack()) } else { cb.witness(witness_of(pad)) };
+        cb = match a.cb.as_str() {
+            "badwitness" => cb.witness(Bytes::from(vec![1u8, 2, 3]).pack()),
+            // a well-formed CellbaseWitness whose lock names a script hash type that does not exist (3)
+            "witnesshashtype" => {
+                let l = lock().as_builder().hash_type(packed::Byte::new(3)).build();
+                cb.witness(packed::CellbaseWitness::new_builder().lock(l).message(Bytes::from(nonce.to_le_bytes().to_vec()).pack()).build().as_bytes().pack())
+            }
+            "nowitness" => cb,
+            _ => cb.witness(witness_of(pad)),
+        };
         let prescribed = CellOutput::new_builder().capacity(reward.total).lock(target_lock.clone()).build();
         let has_target = pos > consensus.finalization_delay_length() && !prescribed.is_lack_of_capacity(Capacity::zero()).unwrap();
         let mut outs: Vec<(CellOutput, Bytes)> = vec![];
@@ -249,8 +258,12 @@ fn realise(w: &mut World, n: &Node, a: &ABlock) -> Result<BlockView, String> {
             "data" => outs[0].1 = Bytes::from(vec![7u8]),
             _ => {}
         }
+        let nodata = a.cb == "nodata";
         for (o, d) in outs {
-            cb = cb.output(o).output_data(d.pack());
+            cb = cb.output(o);
+            if !nodata {
+                cb = cb.output_data(d.pack());
+            }
         }
         cb.build()
     };
